@@ -455,6 +455,8 @@ func runC10(c *Ctx, r *Report) {
 		c08r15(c, r) // a change-nth request is not lost to a request that follows it
 		c08r17(c, r) // change-nth compares with the value it replaces
 		c10r6(c, r)
+		c10r7(c, r)
+		c10r8(c, r)
 		if c.thorough() {
 			c08r3(c, r) // change-nth invalidates everything that was computed under the old field selection
 		}
